@@ -55,10 +55,15 @@ def _match(out, pos, pieces, k, s):
 
 
 def _check_read(case):
-    width, rate, ivs, offgrid, kind, repl = case
+    width, rate, ivs, offgrid, kind, repl = case[:6]
+    order = case[6] if len(case) > 6 else "asc"  # the order in which the caller LISTS the (disjoint) intervals
     fn = _wavfile(width, rate)
     off = F(1, 3) if offgrid else F(0)
     L = [(float((F(a) + off) / rate), float((F(b) - off) / rate)) for a, b in ivs]
+    if order == "desc":
+        L = L[::-1]
+    elif order == "rot":
+        L = L[1:] + L[:1]
     s = list(SAMPLES)
     gen = audio.AudioGenerator(width, rate)
     rf = None
@@ -170,6 +175,8 @@ def _check_rejects(case):
         "keep-beyond": dict(keepIntervals=[(0.0, dur * 2)]),
         "delete-beyond": dict(deleteIntervals=[(dur / 2, dur * 2)]),
         "delete-beyond-by-one-sample": dict(deleteIntervals=[(dur / 2, dur + 1 / rate)]),
+        "keep-beyond-not-listed-last": dict(keepIntervals=[(dur / 2, dur * 2), (0.0, dur / 4)]),
+        "delete-beyond-not-listed-last": dict(deleteIntervals=[(dur / 2, dur + 1 / rate), (dur / 8, dur / 4)]),
     }[which]
     af = wave.open(fn, "r")
     try:
@@ -321,10 +328,20 @@ def parts(tier):
                     for kind in ("keep", "delete"):
                         for repl in (None, "silence", "sine"):
                             yield (width, rate, ivs, off, kind, repl)
+        # the same intervals listed out of time order: the result is still the kept stretches in time order
+        for width, rate in combos[:2] + combos[3:4]:
+            for ivs in sets:
+                if len(ivs) < 2:
+                    continue
+                for kind in ("keep", "delete"):
+                    for repl in (None, "silence", "sine"):
+                        for order in (("desc",) if len(ivs) == 2 else ("desc", "rot")):
+                            yield (width, rate, ivs, False, kind, repl, order)
 
     def gen_rej():
         for width, rate in combos:
-            for which in ("both", "keep-beyond", "delete-beyond", "delete-beyond-by-one-sample"):
+            for which in ("both", "keep-beyond", "delete-beyond", "delete-beyond-by-one-sample", "keep-beyond-not-listed-last",
+                          "delete-beyond-not-listed-last"):
                 yield (width, rate, which)
 
     def gen_extract():
@@ -378,7 +395,7 @@ def parts(tier):
                   rule="12-sample recordings x %d (width, rate) pairs x all lists of <=3 disjoint intervals on sample positions %s "
                        "(on the grid and moved off it by 1/3 sample) x keep/delete x {no replacement, silence, sine}; on-grid: exact "
                        "samples, original length and positions with replacement; off-grid: contiguous runs whose ends are floor or ceil "
-                       "of the exact positions" % (len(combos), GRIDPOS),
+                       "of the exact positions; lists of 2-3 intervals also in descending / rotated listing order (same result as in time order)" % (len(combos), GRIDPOS),
                   bounds={"recording_samples": N, "max_intervals": 3}),
         InputPart("rejections", gen_rej, _check_rejects,
                   rule="both lists at once / times beyond the recording must raise ArgumentError", bounds={}),
